@@ -82,7 +82,9 @@ def generate(seed: int, tier: str = "quick") -> dict:
         return gen_donor(seed, tier, DN.pick(rv))
     rw, rp = R.sub(seed, "world"), R.sub(seed, "program")
     interval = rw.choice(["1min"] * 4 + ["2min", "5min", "15min", "1h"])
-    k = int(pd.Timedelta(interval) / pd.Timedelta("1min"))
+    if R.sub(seed, "odd_interval").random() < 0.07:
+        interval = R.sub(seed, "odd_interval_pick").choice(["90s", "150s", "3min", "7min"])  # not a whole number of minutes / not a divisor of the hour
+    k = max(1, int(pd.Timedelta(interval) / pd.Timedelta("1min")))
     nbars = rw.choice([1, 2, 3, 5, 8, 13, 25, 45, 70] if tier == "quick" else [1, 2, 3, 5, 8, 13, 25, 60, 200, 400])
     if k >= 15:
         nbars = min(nbars, 8 if tier == "quick" else 20)
@@ -106,7 +108,7 @@ def generate(seed: int, tier: str = "quick") -> dict:
         "assets": {t: "100000" for t in tokens}, "quote": "USD", "prices": gen_prices(rw, sorted(tokens), n), "markets": markets,
     }
     # number of bars the loop will make (own resampling)
-    labels = grid_labels(start, n, k)
+    labels = grid_labels(start, n, interval)
     nb = len(labels)
     program = []
     nops = rp.choice([0, 1, 3, 6, 12, 25])
@@ -180,12 +182,27 @@ def _inflate_instruments(mw, per_hour):
                 h["rows"][nm] = dict(h["rows"][nm0])
 
 
-def grid_labels(start, n, k):
+def _interval_seconds(iv) -> int:
+    if isinstance(iv, int):
+        return iv * 60
+    return int(pd.Timedelta(iv if iv[0].isdigit() else "1" + iv).total_seconds())
+
+
+def bin_label(ts, iv, origin=None):
+    """left edge of the bin of width iv (a frequency string, or whole minutes) that holds ts; bins are counted from the
+    midnight before the first timestamp of the data (what a resampled time index means: for a width that divides the day
+    that is every midnight, for 7 minutes it is not)"""
+    ks = _interval_seconds(iv)
+    origin = ts.normalize() if origin is None else origin
+    secs = int((ts - origin).total_seconds())
+    return origin + pd.Timedelta(seconds=(secs // ks) * ks)
+
+
+def grid_labels(start, n, iv):
     labs = []
+    origin = pd.Timestamp(start).normalize()
     for i in range(n):
-        ts = start + pd.Timedelta(minutes=i)
-        mins = ts.hour * 60 + ts.minute
-        lab = ts.normalize() + pd.Timedelta(minutes=(mins // k) * k)
+        lab = bin_label(start + pd.Timedelta(minutes=i), iv, origin)
         if not labs or labs[-1] != lab:
             labs.append(lab)
     return labs
@@ -198,7 +215,9 @@ class LoopOracle(Oracle):
         k = DN.interval_minutes(w)
         start = pd.Timestamp(w["start"])
         donor = sim.scenario.get("donor")
-        labels = DN.bar_times(w) if donor else grid_labels(start, int(w["n"]), k)
+        labels = DN.bar_times(w) if donor else grid_labels(start, int(w["n"]), w.get("interval", "1min"))
+        if not donor and _interval_seconds(w.get("interval", "1min")) % 60:
+            sim.count("probe:interval_not_a_whole_number_of_minutes")
         names = [m["name"] for m in w["markets"]]
         sim.count("probe:world:" + (donor or "uni"))
         kinds = sorted({m["kind"] for m in w["markets"]})
@@ -376,8 +395,7 @@ class LoopOracle(Oracle):
         mins = [start + pd.Timedelta(minutes=i) for i in range(int(w["n"]))]
         first_of = {}
         for i, tsx in enumerate(mins):
-            m_ = tsx.hour * 60 + tsx.minute
-            lab = tsx.normalize() + pd.Timedelta(minutes=(m_ // k) * k)
+            lab = bin_label(tsx, k) if donor else bin_label(tsx, w.get("interval", "1min"), start.normalize())
             first_of.setdefault(lab, i)
         for tok, series in (w.get("prices") or {}).items():
             col = ("price", tok)
